@@ -196,8 +196,14 @@ def canon_info_model(line):
 def stream_correspondence(chk, env):
     rng = chk.rng
     ops_p, impl_p, ops_i, impl_i, ops_w, impl_w = [], [], [], [], [], []
-    for k in range(chk.scale(1500, 20000)):
-        tag, n, data = gen_stream(rng)
+    # fixed streams, every run: IN counters next to the repeat marker 65535 (65534 readings is an ordinary frame)
+    fixed = []
+    for ic in (65533, 65534):
+        body = [(7 * j + ic) % 256 for j in range(ic)]
+        fixed.append((f'in-counter-{ic}', 3, rzxrec.frames_bytes([(3, body), (2, body), (1, [5, 6])], ic % 2 == 1)))
+    nrand = chk.scale(1500, 20000)
+    for k in range(len(fixed) + nrand):
+        tag, n, data = fixed[k] if k < len(fixed) else gen_stream(rng)
         compress = rng.random() < 0.5
         blk = rzxrec.input_block([None] * n, tstates=rng.randrange(70000), compress=compress, raw=data)
         name = f'mem:{k}.rzx'
@@ -228,7 +234,7 @@ def stream_correspondence(chk, env):
         ops_i.append(f'info {n} {arg}'.strip())
         impl_i.append(goti)
         del env.files[name]
-        chk.case('stream:' + tag, ('stream', tag, n, tuple(data)), {'stream': tag, 'frames': n, 'bytes': data[:24]} if k < 3 else None)
+        chk.case('stream:' + tag, ('stream', tag, n, tuple(data)), {'stream': tag, 'frames': n, 'bytes': data[:24]} if len(fixed) <= k < len(fixed) + 3 else None)
         # e2e on the spot: the two real readers must agree on every stream (the property's last sentence
         # needs rzxinfo to report what rzxplay plays)
         if okp != (err is None):
@@ -440,6 +446,82 @@ def canon_play(line):
 
 def machine_line(img, regs, fields):
     return f"{img.header()} ; {' '.join(map(str, regs))} ; {' '.join(map(str, fields))} ; {img.cell_words()}"
+
+
+# ---------------------------------------------------------------------------------------------------
+# 1b. the C frame loop on instructions that straddle the 64K wrap, in a forked child
+
+def _forked(fn):
+    """fn() in a forked child -> (True, result) | (False, 'signal N'): a crash of the C extension is a result."""
+    import pickle
+    r, w = os.pipe()
+    pid = os.fork()
+    if pid == 0:
+        code = 0
+        try:
+            os.close(r)
+            res = fn()
+            with os.fdopen(w, 'wb') as f:
+                pickle.dump(res, f)
+        except BaseException:
+            code = 1
+        os._exit(code)
+    os.close(w)
+    with os.fdopen(r, 'rb') as f:
+        blob = f.read()
+    _, status = os.waitpid(pid, 0)
+    if os.WIFSIGNALED(status):
+        return False, f'signal {os.WTERMSIG(status)}'
+    try:
+        return True, pickle.loads(blob)
+    except Exception:
+        return False, 'no result'
+
+
+WRAP_SEQS = ([0x00], [0x3E, 0x12], [0x21, 0x34, 0x12], [0xCB, 0x47], [0xED, 0x44], [0xED, 0x57], [0xDD, 0x23], [0xFD, 0x23], [0xDD, 0x00],
+             [0xDD, 0xCB, 0x01, 0x46], [0xFD, 0xCB, 0xFF, 0xC6], [0xDD, 0xFD, 0xDD, 0x00], [0x76], [0xFB], [0xDB, 0xFE], [0x18, 0x00])
+
+
+def wrap_cases():
+    cases = []
+    for is128 in (False, True):
+        for pc in (0xFFFC, 0xFFFD, 0xFFFE, 0xFFFF):
+            for seq in WRAP_SEQS:
+                img = Img(is128, 3 if is128 else 0)
+                for k, b in enumerate(seq + [0x00] * 4):
+                    img.poke((pc + k) % 65536, b)
+                regs = [0] * 24
+                regs[12] = 0xBF00
+                regs[8], regs[9], regs[10], regs[11] = 0x90, 0x00, 0xA0, 0x00
+                cases.append((img, regs, [pc, 100, 0, 1, 0, 0], seq))
+    return cases
+
+
+def crash_canary(chk, env):
+    """exec_frame reads the opcode bytes at pc, pc + 1 and pc + 3 itself: every instruction shape placed across
+    0xFFFF/0x0000, on the C simulators, in a child process first.  A child killed by a signal is reported with the concrete
+    machine state; the check then stops (the same call would kill the check itself in the next phase)."""
+    cases = wrap_cases()
+
+    def run_all(impl, sub):
+        return [real_process_block(env, impl, img, regs, fields, [(1, [0xFF] * 2)], 0, None, 0)[0] for img, regs, fields, seq in sub]
+    for impl in ('c-plain', 'c-cmio'):
+        ok, res = _forked(lambda: run_all(impl, cases))
+        for c in cases:
+            chk.case(f'wrap:{impl}', ('wrap', impl, c[2][0], tuple(c[3])))
+        if ok:
+            continue
+        for img, regs, fields, seq in cases:
+            ok1, res1 = _forked(lambda: run_all(impl, [(img, regs, fields, seq)]))
+            if not ok1:
+                chk.violation(f'c-exec-frame-crash:{impl}',
+                              f'{impl}: CSimulator.exec_frame dies ({res1}) executing {" ".join(f"{b:02X}" for b in seq)} at PC={fields[0]:#06x} '
+                              f'on a {"128K" if img.is128 else "48K"} machine (one frame, fetch counter 1); the Python simulator plays it',
+                              {'kind': 'wrap', 'impl': impl, 'pc': fields[0], 'seq': seq, 'is128': img.is128})
+                return False
+        chk.violation(f'c-exec-frame-crash:{impl}', f'{impl}: CSimulator.exec_frame dies ({res}) on the 64K wrap group', {'kind': 'wrap', 'impl': impl})
+        return False
+    return True
 
 
 # ---------------------------------------------------------------------------------------------------
@@ -775,10 +857,27 @@ def accept_correspondence(chk, env):
 # ---------------------------------------------------------------------------------------------------
 # 4. end-to-end: recorder -> RZX file -> rzxplay.main / rzxinfo.main
 
+def io_chunk(rng, is128):
+    code = []
+    for _ in range(rng.choice((0, 1, 2, 3))):
+        k = rng.randrange(4)
+        if k == 0:
+            sel = rng.choice((15, 14, 16, 0x1F, 0xFF, 0, rng.randrange(16)))
+            code += [0x01, 0xFD, 0xFF, 0x3E, sel, 0xED, 0x79,                       # LD BC,FFFD; LD A,sel; OUT (C),A
+                     0x06, 0xBF, 0x3E, rng.choice((0xFF, 0x80, 0x01, rng.randrange(256))), 0xED, 0x79]   # LD B,BF; LD A,v; OUT (C),A
+        elif k == 1:
+            code += [0x3E, rng.choice((0xFF, 0x18, 0x07, rng.randrange(256))), 0xD3, 0xFE]
+        elif k == 2 and is128:
+            code += [0x01, 0xFD, 0x7F, 0x3E, rng.choice((0x00, 0x07, 0x10, 0x20, 0x27, 0xC3, rng.randrange(256))), 0xED, 0x79]
+        else:
+            code += [0x01, 0xFD, 0xFF, 0x3E, rng.choice((15, 0, 7)), 0xED, 0x79, 0xED, 0x78]   # select; IN A,(C)
+    return code
+
+
 def gen_machine(rng, env, is128, soup=False, no_bit_hl=False):
     """A full machine for the e2e: real ROMs (the files embed ordinary snapshots), program at 0x8000."""
     banks = {b: [0] * 16384 for b in (range(8) if is128 else (5, 2, 0))}
-    o7 = rng.choice((0, 0, 1, 3, 6, 0x10, 0x13)) if is128 else 0
+    o7 = rng.choice((0, 0, 1, 3, 6, 0x10, 0x13, 0x23, 0x30, 0xC1)) if is128 else 0     # incl. paging locked from the start
 
     def poke(addr, v):
         q, off = addr // 16384, addr % 16384
@@ -796,6 +895,11 @@ def gen_machine(rng, env, is128, soup=False, no_bit_hl=False):
             poke(a, v)
     else:
         a = base
+        # port traffic whose effect lives in the tracer, executed first: AY register selects (15; 16 and above select no
+        # register) followed by data writes, last OUT to 0xFE, 0x7FFD writes (a locked machine must ignore them)
+        for b in io_chunk(rng, is128):
+            poke(a, b)
+            a += 1
         for _ in range(rng.randrange(2, 5)):
             a0 = a
             a = small_program(rng, img_like, a) - 3          # drop the JP: fall through to the next chunk
@@ -998,7 +1102,7 @@ class E2ECase:
             m0.pc, m0.im, m0.iff = 0x8000, 1, 1
             m0.regs[10], m0.regs[11] = 0x5C, 0x3A
             m0.regs[12] = 0xBF00
-        self.t0 = rng.choice((0, 0, 1000, rng.randrange(69000)))
+        self.t0 = rng.choice((0, 0, 1000, 65535, 65536 + rng.randrange(3000), rng.randrange(69000)))
         m0.t = self.t0
         if z80:
             m0.outfe = 0          # a .z80 snapshot carries neither the last OUT to 0xFE nor MEMPTR
@@ -1592,7 +1696,11 @@ def run(chk):
                 'before / at / after the end; e2e: an independent recorder (plain or contended simulator, conventions 0..3, frames by instruction '
                 'count or by T-states, multi-block files with intermediate snapshots) -> RZX files with z80 v1/v2/v3 / szx snapshots, compressed or '
                 'not, repeat marker or not -> rzxplay.main C and --python, every stop point of short recordings, rzxinfo.main. '
-                'non-trivial = distinct (stream) / (slot, R parity) / (program, frames, flags, stop) / (recording seed, stop point)')
+                'non-trivial = distinct (stream) / (slot, R parity) / (program, frames, flags, stop) / (recording seed, stop point). directed (every '
+                'run): IN counters 65533/65534 next to the repeat marker; the C frame loop on every instruction shape across 0xFFFF/0x0000 on 48K '
+                'and 128K in a child process; recordings starting with paging locked and all AY registers set; frames ending on HALT / ED xx at '
+                '0xFFFF; a frame with 350 port readings (rzxinfo, stop before it, play the written file); 65539 frames through rzxinfo; generated '
+                'programs begin with AY selects 15/16+/0xFF + data writes, OUT 0xFE and 0x7FFD writes, machines may start locked')
     chk.trusted += ['translator translate/py2lean.py (validated per slot by C06/C08 each run) and translate/gen_c20.py (theorem generator: output is kernel-checked)',
                     'hand models Model/RzxInput.lean, Model/RzxPlay.lean, Spec/RzxM1.lean tied by correspondence (this file)',
                     'harness recorder indep/rzxrec.py (tied to Model recBlock by correspondence) and snapshot decoders indep/snapdec.py',
@@ -1623,6 +1731,8 @@ def run(chk):
     if chk.thorough and ok:
         chk.leanchecker([PROPS])
     stream_correspondence(chk, env)
+    if not crash_canary(chk, env):
+        return
     fetch_decrements(chk, env)
     accept_correspondence(chk, env)
     play_correspondence(chk, env)
@@ -1692,8 +1802,117 @@ def probe_case(env, name):
             return name, err
         return ('the last instruction of a frame overwrites its own opcode (LD (HL),n with HL = its address) so that it reads back as '
                 + ('HALT' if name == 'reread-halt' else 'EI')), diff_state(expected_state(rec.mach, None), decode_out(out), True)
+    if name in SWEEP_PROBES:
+        return sweep_probe(env, name)
     raise ValueError(name)
 
+
+def _play_and_compare(env, infile, rec, flags, langs=('c', 'py'), cmio=False):
+    """Play `infile` with the real rzxplay.main; first difference from the recorder's final state, or None."""
+    for lang in langs:
+        out = os.path.join(env.scratch, f'sweep_{lang}.szx')
+        args = ['--no-screen', '--quiet', '--flags', str(flags)] + (['--cmio'] if cmio else []) + (['--python'] if lang == 'py' else [])
+        _, err = env.run_main(env.rzxplay, args + [infile, out])
+        if err:
+            return f'{lang}: playback failed: {err}'
+        d = diff_state(expected_state(rec.mach, None), decode_out(out), True)
+        if d:
+            return f'{lang}: playback does not end in the recorder\'s state: {d}'
+    return None
+
+
+def sweep_probe(env, name):
+    """Directed recordings (deterministic, every run) for corners that random programs reach rarely or never."""
+    sc = env.scratch
+    infile = os.path.join(sc, 'sweep.rzx')
+    if name in ('ed-at-ffff', 'halt-at-ffff'):
+        # the last instruction of frame 1 sits at 0xFFFF (its second byte / the next instruction wrap to address 0), interrupts
+        # enabled: the end-of-frame rules look at memory[pc], memory[pc + 1] and advance PC past a HALT
+        m = _probe_machine((0xFB, 0xC3, 0xFF, 0xFF))
+        m.banks[0][0x3FFF] = 0xED if name == 'ed-at-ffff' else 0x76
+        flags = 1 if name == 'ed-at-ffff' else 0
+        rec = rzxrec.Recorder(env.rec_mods, m.copy(), lambda p: 0xFF, flags)
+        frames = rec.record([('n', 3), ('n', 2), ('n', 4)], 0)
+        with open(infile, 'wb') as f:
+            f.write(rzxrec.rzx_file([rzxrec.snapshot_block(rzxrec.szx_snapshot(m), 'szx', True), rzxrec.input_block(frames, 0, True)]))
+        return (f'frame ending on {"ED xx" if name == "ed-at-ffff" else "HALT"} at 0xFFFF with interrupts enabled, --flags {flags}',
+                _play_and_compare(env, infile, rec, flags))
+    if name == 'locked-128k-start':
+        # a 128K recording whose snapshot has paging locked (bank 3 at 0xC000) and every AY register non-zero: the program's
+        # write to 0x7FFD must be ignored (its store to 0xC000 lands in bank 3), AY register 15 must survive
+        banks = {b: [b] * 16384 for b in range(8)}
+        code = (0x01, 0xFD, 0x7F, 0x3E, 0x07, 0xED, 0x79,          # LD BC,7FFD; LD A,7; OUT (C),A
+                0x3E, 0x5A, 0x32, 0x00, 0xC0,                      # LD A,5A; LD (C000),A
+                0x01, 0xFD, 0xFF, 0x3E, 0x0E, 0xED, 0x79,          # LD BC,FFFD; LD A,14; OUT (C),A
+                0x06, 0xBF, 0x3E, 0x77, 0xED, 0x79,                # LD B,BF; LD A,77; OUT (C),A
+                0x00, 0x00, 0x18, 0xFC)
+        for k, b in enumerate(code):
+            banks[2][k] = b
+        regs = [0] * 24
+        regs[12], regs[14] = 0xBF00, 0x3F
+        regs[10], regs[11] = 0x5C, 0x3A
+        m = rzxrec.Machine(True, banks, regs, 0x8000, iff=0, im=1, border=4, out7ffd=0x23, outfffd=3, ay=[0x11 + k for k in range(16)], outfe=0x04)
+        rec = rzxrec.Recorder(env.rec_mods, m.copy(), lambda p: 0xFF, 0)
+        frames = rec.record([('n', 4), ('n', 7), ('n', 4)], 0)
+        for emb in ('szx', 'z80'):
+            data = rzxrec.szx_snapshot(m) if emb == 'szx' else rzxrec.z80_snapshot(m, 3)
+            with open(infile, 'wb') as f:
+                f.write(rzxrec.rzx_file([rzxrec.snapshot_block(data, emb, True), rzxrec.input_block(frames, 0, True)]))
+            for lang in ('c', 'py'):
+                out = os.path.join(sc, f'sweep_{lang}.szx')
+                _, err = env.run_main(env.rzxplay, ['--no-screen', '--quiet'] + (['--python'] if lang == 'py' else []) + [infile, out])
+                bad = err or diff_state(expected_state(rec.mach, None), decode_out(out), True, ('outfe', 'memptr') if emb == 'z80' else ())
+                if bad:
+                    return f'128K recording starting with paging locked, embedded .{emb}', f'{lang}: {bad}'
+        return '128K recording starting with paging locked', None
+    if name == 'long-frame-resume':
+        # a frame with several hundred port readings (IN A,(FE) in a tight loop), stop before it, play the written file
+        m = _probe_machine((0xDB, 0xFE, 0x18, 0xFC))
+        seq = iter(range(1 << 30))
+        rec = rzxrec.Recorder(env.rec_mods, m.copy(), lambda p: (next(seq) * 7 + 3) % 256, 0)
+        frames = rec.record([('n', 6), ('n', 700), ('n', 5)], 0)
+        with open(infile, 'wb') as f:
+            f.write(rzxrec.rzx_file([rzxrec.snapshot_block(rzxrec.szx_snapshot(m), 'szx', True), rzxrec.input_block(frames, 0, True)]))
+        out, err = env.run_main(env.rzxinfo, ['--frames', infile])
+        want = [(fc, len(r), None, ', '.join(map(str, r[:10])) + ('...' if len(r) > 10 else '')) for fc, r in frames]
+        if err or parse_info_rows(out) != want:
+            return 'rzxinfo on a frame with 350 port readings', err or f'reported {parse_info_rows(out)[:3]}, recorded {want[:3]}'
+        mid = os.path.join(sc, 'sweep_mid.rzx')
+        for lang in ('c', 'py'):
+            _, err = env.run_main(env.rzxplay, ['--no-screen', '--quiet', '--stop', '1'] + (['--python'] if lang == 'py' else []) + [infile, mid])
+            if err:
+                return 'stop before a frame with 350 port readings', f'{lang}: --stop 1 failed: {err}'
+            with open(mid, 'rb') as fh:
+                written = [f for b in rzxrec.read_rzx(fh.read()) if b[0] == 'input' for f in b[2]]
+            if written != frames[1:]:
+                k = next((i for i, (x, y) in enumerate(zip(written, frames[1:])) if x != y), 0)
+                return ('stop before a frame with 350 port readings',
+                        f'{lang}: the written file holds {[(fc, len(r)) for fc, r in written]}, expected {[(fc, len(r)) for fc, r in frames[1:]]} (first difference in frame {k})')
+            bad = _play_and_compare(env, mid, rec, 0, (lang,))
+            if bad:
+                return 'stop before a frame with 350 port readings, play the written file', bad
+        return 'stop before a frame with 350 port readings', None
+    if name == 'many-frames':
+        # more frames than fit 16 bits: rzxinfo must report every one of them
+        n = 65536 + 3
+        frames = [(1, [])] * n
+        m = _probe_machine((0x00, 0x18, 0xFD))
+        with open(infile, 'wb') as f:
+            f.write(rzxrec.rzx_file([rzxrec.snapshot_block(rzxrec.szx_snapshot(m), 'szx', True), rzxrec.input_block(frames, 0, True, True)]))
+        out, err = env.run_main(env.rzxinfo, ['--frames', infile])
+        if err:
+            return f'{n} frames', f'rzxinfo failed: {err}'
+        mm = re.search(r'Number of frames: (\d+)', out)
+        shown = len(re.findall(r'^  Frame \d+:$', out, re.M))
+        if not mm or int(mm.group(1)) != n or shown != n:
+            return f'recording with {n} frames', f'rzxinfo reports {mm.group(1) if mm else None} frames and lists {shown}'
+        return f'{n} frames', None
+    raise ValueError(name)
+
+
+SWEEP_PROBES = {'locked-128k-start': 'start-state:128k-paging-locked', 'ed-at-ffff': 'frame-end:instruction-at-ffff', 'halt-at-ffff': 'frame-end:instruction-at-ffff',
+                'long-frame-resume': 'resume:frame-with-many-port-readings',
+                'many-frames': 'rzxinfo:more-than-65535-frames'}
 
 PROBES = {'z80v1-pc-zero': 'resume:z80v1-embedded:pc-zero-at-stop',
           'reread-halt': 'frame-end:last-instruction-rewrites-own-opcode',
@@ -1702,7 +1921,7 @@ PROBES = {'z80v1-pc-zero': 'resume:z80v1-embedded:pc-zero-at-stop',
 
 def directed_probes(chk, env):
     env.scratch = chk.scratch
-    for name, key in PROBES.items():
+    for name, key in list(PROBES.items()) + list(SWEEP_PROBES.items()):
         desc, bad = probe_case(env, name)
         chk.case('probe:' + name, ('probe', name), None)
         if bad:
@@ -1732,6 +1951,15 @@ def replay(chk, data):
         return len(chk.violations) > n0
     if kind == 'probe':
         return bool(probe_case(env, data['name'])[1])
+    if kind == 'wrap':
+        for img, regs, fields, seq in wrap_cases():
+            if 'pc' in data and (fields[0], seq, img.is128) != (data['pc'], data['seq'], data.get('is128', False)):
+                continue
+            ok, res = _forked(lambda: real_process_block(env, data['impl'], img, regs, fields, [(1, [0xFF] * 2)], 0, None, 0)[0])
+            if not ok:
+                print(f"{data['impl']}: {res} at PC={fields[0]:#06x} {seq}")
+                return True
+        return False
     if kind == 'e2e-gen':
         try:
             E2ECase(env, data['seed'], data.get('thorough', False), data.get('canonical', False))
